@@ -315,6 +315,39 @@ Definition slice_default_doc (e : ftype) (d : string) : option jv :=
     end
   else json_value d.
 
+(* ------------------------------------------------------------------ a string for a slice field
+
+   processFieldNotFromString: a string (a path variable, a single header value, a JSON string) given
+   to a slice field is read as a JSON array by fillSliceFromString — a different routine from
+   fillSlice: no null elements, no nested arrays, elements converted at the ELEMENT's own kind
+   (a pointer element only takes true / false).  JSON null gives an empty slice. *)
+
+Fixpoint str_elem_ptr (e : ftype) (b : bool) : result gval :=
+  match e with
+  | TPrim KBool => Ok (VBool b)
+  | TPtr e' => rmap VPtr (str_elem_ptr e' b)
+  | _ => Err EType
+  end.
+
+Definition str_elem (e : ftype) (v : jv) : result gval :=
+  match e with
+  | TPrim k => prim_elem false k v
+  | TPtr e' => match v with JBool b => rmap VPtr (str_elem_ptr e' b) | _ => Err EType end
+  | _ => Err EType
+  end.
+
+Definition str_slice (e : ftype) (s : string) : result gval :=
+  match json_value s with
+  | Some (JArr l) => rmap VSlice (mapM (str_elem e) l)
+  | Some JNull => Ok (VSlice [])
+  | _ => Err EType
+  end.
+
+(* strings the reader above reads like encoding/json: printable ASCII without object / escape
+   characters, or not starting like an array at all *)
+Definition slice_str_ok (s : string) : bool :=
+  json_plain s || match ltrim (list_ascii_of_string s) with c :: _ => negb (ch c 91) | [] => true end.
+
 (* ------------------------------------------------------------------ the unmarshaller *)
 
 Section Unmarshal.
@@ -332,6 +365,7 @@ Fixpoint umk_present (env : list obj) (t : ftype) (ro : ropts) (v : jv) {struct 
   | TSlice e =>
     match v with
     | JArr l => slice_with (umk_elem false e) (zero e) l
+    | JStr s => str_slice e s
     | _ => Err EType
     end
   | TMap e =>
